@@ -89,9 +89,32 @@ class C08(Prop):
                     good.append(fresh)
         return {"lines": lines, "note": note}
 
+    def _probe_scenario(self, rng):
+        """trip the breaker, move the clock to just below / at / above the timeout, probe, and look again"""
+        thr = rng.choice([1, 1, 2, 3, 4])
+        tmo = rng.choice([TMO, TMO, 1_000_000, 2, 1])
+        gate = "and" if rng.random() < 0.7 else rng.choice(["unanimous", "or", "executor_priority", "assessor_priority"])
+        fail = ["efail", "exc", "yexc"] if gate != "or" else ["exc", "yexc", "FAILURE/DEFER"]
+        ev = [rng.choice(["succ", "block"])] if rng.random() < 0.5 else []
+        if rng.random() < 0.5:
+            ev.append("succ")                       # something to hit in the cache later
+        ev += [rng.choice(fail) for _ in range(thr)]
+        for _ in range(rng.choice([1, 2, 3])):
+            if rng.random() < 0.8:
+                ev.append(("adv", rng.choice([tmo - 1, tmo, tmo, tmo + 1, tmo // 2])))
+                if rng.random() < 0.3:
+                    ev.append(("adv", 1))
+            ev.append(rng.choice(["succ", "succ", "block", "skip", "hit", "mismatch"] + fail))
+            if rng.random() < 0.5:
+                ev.append(rng.choice(["succ", "block", "hit"] + fail))
+        return self._history(ev, thr, tmo, gate, True, rng.random() < 0.8, "probe scenario")
+
     def generate(self, rng, tier, n):
         names = ["succ", "block", "skip", "efail", "exc", "yexc", "mismatch", "hit"]
         for i in range(n):
+            if i % 3 == 0:
+                yield self._probe_scenario(rng)
+                continue
             thr = rng.choice([1, 1, 2, 2, 3, 3, 4, 4, 5, 0, -1])
             tmo = rng.choice([TMO, TMO, TMO, 1_000_000, 1, 0, -1_000_000, 1_500_000])
             gate = "and" if rng.random() < 0.55 else rng.choice(GATES)
